@@ -129,13 +129,14 @@ def wact (P : Problem) (runLen : Nat) (a : Act) : WAct :=
     { jobId := if isCustomerKind a.kind then a.job else a.kind, kind := a.kind, loc := some a.loc,
       time := some (startOf a, endOf a), tag := tagOf P a }
 
-/-- consecutive activities at one location form a stop (`is_new_stop = prev_location != location`) -/
-def groupRuns : List Act → List (List Act)
+/-- consecutive activities at one location form a stop (`is_new_stop = prev_location != location`);
+    a run is (first activity, further activities) -/
+def groupRuns : List Act → List (Act × List Act)
   | [] => []
   | a :: as =>
     match groupRuns as with
-    | (b :: r) :: rs => if a.loc = b.loc then (a :: b :: r) :: rs else [a] :: (b :: r) :: rs
-    | _ => [[a]]
+    | (b, r) :: rs => if a.loc = b.loc then (a, b :: r) :: rs else (a, []) :: (b, r) :: rs
+    | [] => [(a, [])]
 
 /-- "remove redundant info from single activity on the stop" -/
 def cleanSingle (arrival : Int) (loc : Nat) (w : WAct) : WAct :=
@@ -147,20 +148,20 @@ def cleanSingle (arrival : Int) (loc : Nat) (w : WAct) : WAct :=
       | some l => if l = loc then none else some l
       | none => none }
 
-def stopOfRun (P : Problem) : List Act → Option WStop
-  | [] => none
-  | a :: r =>
-    let run := a :: r
-    let last := run.getLast?.getD a
-    let acts := run.map (wact P run.length)
-    let arrival := fmt a.arr
-    some { loc := a.loc, arrival := arrival, departure := fmt last.dep,
-           acts := match acts with
-             | [w] => [cleanSingle arrival a.loc w]
-             | ws => ws }
+def lastOf (a : Act) : List Act → Act
+  | [] => a
+  | b :: r => lastOf b r
+
+def stopOfRun (P : Problem) (run : Act × List Act) : WStop :=
+  let a := run.1
+  let arrival := fmt a.arr
+  { loc := a.loc, arrival := arrival, departure := fmt (lastOf a run.2).dep,
+    acts := match run.2 with
+      | [] => [cleanSingle arrival a.loc (wact P 1 a)]
+      | r => (a :: r).map (wact P (r.length + 1)) }
 
 def writeTour (P : Problem) (t : Tour) : WTour :=
-  { vehicle := t.vehicle, shift := t.shift, stops := (groupRuns t.acts).filterMap (stopOfRun P) }
+  { vehicle := t.vehicle, shift := t.shift, stops := (groupRuns t.acts).map (stopOfRun P) }
 
 /-! ## reader -/
 
@@ -380,18 +381,21 @@ def sameSet (a b : List String) : Bool := a.all b.contains && b.all a.contains
 
 /-! ## hypotheses of the theorem, as executable checks -/
 
-/-- the activity refers to an existing place whose own three matching conditions hold for what the
-    writer puts into the document (the solver serves a job at the place's location inside one of
-    its windows) -/
-def selfMatches (P : Problem) (routeStart : Int) (a : Act) : Bool :=
+/-- the activity is served at place `pl`: at its location, for its duration, starting inside one of
+    its windows (what a feasible solution of the solver satisfies), and it leaves when it is done -/
+def servedAt (pl : Place) (a : Act) : Bool :=
+  pl.loc == some a.loc && a.dur == Q * pl.dur && fmt a.dep == endOf a && decide (0 ≤ pl.dur) &&
+  pl.spans.any (fun wp => !wp.offset && decide (wp.s ≤ startOf a) && decide (startOf a ≤ wp.e))
+
+/-- the place of the problem a trace activity refers to -/
+def placeOf (P : Problem) (a : Act) : Option (JobDef × Place) :=
   match P.find a.job with
   | some jd => match jd.singles[a.task]? with
     | some s => match s.places[a.place]? with
-      | some pl => placeMatches pl { routeStart := routeStart, loc := a.loc, time := (startOf a, endOf a),
-                                     kind := a.kind, jobId := a.job, tag := pl.tag }
-      | none => false
-    | none => false
-  | none => false
+      | some pl => some (jd, pl)
+      | none => none
+    | none => none
+  | none => none
 
 /-- two places can be told apart: tag, or location, or windows further apart than the duration
     (the written interval `[start, start + duration]` may stick out of the window it started in) -/
@@ -418,25 +422,43 @@ def nodupB [BEq α] : List α → Bool
   | [] => true
   | a :: as => !as.contains a && nodupB as
 
-/-- conditions on the solver's output: every job activity sits at one of its places inside a window,
-    no (job, task) is served twice, a vehicle-bound activity is resolved to its own job, the
-    departure time is what the departure activity says -/
+/-- conditions on the solver's output: every customer activity is served at the place it names, no
+    (job, task) is served twice, a vehicle-bound activity is resolved to its own job and only once -/
+def tourOk (P : Problem) (t : Tour) : Bool :=
+  match t.acts with
+  | [] => false
+  | st :: rest =>
+    let rs := fmt st.dep
+    st.kind == "departure" &&
+    rest.all (fun a =>
+      (a.kind == "arrival") ||
+      (isCustomerKind a.kind &&
+        (match placeOf P a with | some (jd, pl) => !jd.bound && servedAt pl a | none => false)) ||
+      (isBoundKind a.kind && fmt a.dep == endOf a &&
+        (match matchBound (ctxOfAct P rs a) (boundGroup P t.vehicle a.kind t.shift P.jobs.length 1) with
+         | some (jd, _) => jd.id == a.job && jd.bound
+         | none => false)))
+
+def jobActs (tours : List Tour) : List Act :=
+  (tours.flatMap (·.acts)).filter (fun a => isCustomerKind a.kind || isBoundKind a.kind)
+
 def traceOk (P : Problem) (tours : List Tour) : Bool :=
-  let all := tours.flatMap (·.acts)
-  nodupB ((all.filter (fun a => isCustomerKind a.kind)).map (fun a => (a.job, a.task))) &&
-  nodupB ((all.filter (fun a => isBoundKind a.kind)).map (·.job)) &&
-  tours.all (fun t =>
-    match t.acts with
-    | [] => false
-    | st :: rest =>
-      let rs := fmt st.dep
-      st.kind == "departure" && fmt st.arr ≤ fmt st.dep &&
-      rest.all (fun a =>
-        (a.kind == "arrival") ||
-        (isCustomerKind a.kind && selfMatches P rs a && (match P.find a.job with | some jd => !jd.bound | none => false)) ||
-        (isBoundKind a.kind && selfMatches P rs a &&
-          (match matchBound (ctxOfAct P rs a) (boundGroup P t.vehicle a.kind t.shift P.jobs.length 1) with
-           | some (jd, _) => jd.id == a.job
-           | none => false))))
+  nodupB ((jobActs tours).map (fun a => (a.job, a.task))) && tours.all (tourOk P)
+
+/-- the solver's unassigned list names jobs of the problem, and every customer job is either in it or served -/
+def unassignedOk (P : Problem) (tours : List Tour) (unassigned : List String) : Bool :=
+  unassigned.all (fun id => (P.find id).isSome) &&
+  (P.jobs.filter (fun j => !j.bound)).all (fun jd =>
+    unassigned.contains jd.id || (jobActs tours).any (fun a => a.job == jd.id))
+
+/-- job ids are unique in the job index -/
+def idsOk (P : Problem) : Bool := nodupB (P.jobs.map (·.id))
+
+/-- all hypotheses of `init_roundtrip_partial` as one executable check -/
+def initHyp (P : Problem) (tours : List Tour) (unassigned : List String) : Bool :=
+  idsOk P &&
+  (P.jobs.filter (fun j => !j.bound)).all (fun jd =>
+    placesDistinguishable jd && (jd.singles.length ≤ 1 || multiTagsOk jd)) &&
+  traceOk P tours && unassignedOk P tours unassigned
 
 end C11.Init
